@@ -780,7 +780,12 @@ func report(ctx *context, ag *aggregate) int {
 	}
 	b, _ := json.MarshalIndent(ev, "", " ")
 	os.MkdirAll(filepath.Join(ctx.verif, "evidence"), 0755)
-	if err := os.WriteFile(filepath.Join(ctx.verif, "evidence", p.id+".json"), append(b, '\n'), 0644); err != nil {
+	evPath := filepath.Join(ctx.verif, "evidence", p.id+".json")
+	if ctx.repo != "/repo" {
+		// a run against a scratch copy (mutant / seeded change) must not replace the evidence of /repo
+		evPath = filepath.Join(ctx.verif, "evidence", "replay", p.id+"-scratch-evidence.json")
+	}
+	if err := os.WriteFile(evPath, append(b, '\n'), 0644); err != nil {
 		fatalf("write evidence: %v", err)
 	}
 	fmt.Printf("%s %s seed=%d: evaluations=%d distinct_nontrivial=%d violations=%d known=%d inconclusive=%d wall=%.1fs\n",
